@@ -1,8 +1,230 @@
-//! C10 observations (see props/c10.py for the consumer).
+//! C10 observations: two-source HOM rates / visibilities at setup level, the eight amplitude grids obtained with
+//! `jsa_range` on the same regions `hom_two_source_rate_series` uses, and the singular values of the sampled JSA matrix
+//! (see props/c10.py for the consumer).
+//!
+//! args: seed  n_cases  max_side  n_pair_cases
 #![allow(unused_imports, dead_code)]
+use crate::c11::{build_setup, setups};
 use crate::common::*;
-use serde_json::json;
+use serde_json::{json, Value};
+use spdcalc::dim::ucum::{M, RAD, S};
+use spdcalc::math::Integrator;
+use spdcalc::na::DMatrix;
+use spdcalc::utils::Steps;
+use spdcalc::*;
 
-pub fn run(_args: &[String]) {
-  emit(json!({"kind": "not_implemented", "property": "C10"}));
+type C = Complex<f64>;
+
+fn space(xs: (f64, f64, usize), ys: (f64, f64, usize)) -> FrequencySpace {
+  FrequencySpace::new((xs.0 * RAD / S, xs.1 * RAD / S, xs.2), (ys.0 * RAD / S, ys.1 * RAD / S, ys.2))
+}
+
+fn cjson(a: &[C]) -> Value {
+  json!([fxs(&a.iter().map(|z| z.re).collect::<Vec<_>>()), fxs(&a.iter().map(|z| z.im).collect::<Vec<_>>())])
+}
+
+/// the eight grids in the order of the source: first_s1_i1, second_s2_i2, first_s2_i1, second_s1_i2, first_s1_i2,
+/// second_s2_i1, first_i2_i1, second_s2_s1
+fn eight(js1: &JointSpectrum, js2: &JointSpectrum, ls1: (f64, f64, usize), li1: (f64, f64, usize), ls2: (f64, f64, usize), li2: (f64, f64, usize)) -> Vec<Vec<C>> {
+  vec![
+    js1.jsa_range(space(ls1, li1)),
+    js2.jsa_range(space(ls2, li2)),
+    js1.jsa_range(space(ls2, li1)),
+    js2.jsa_range(space(ls1, li2)),
+    js1.jsa_range(space(ls1, li2)),
+    js2.jsa_range(space(ls2, li1)),
+    js1.jsa_range(space(li2, li1)),
+    js2.jsa_range(space(ls2, ls1)),
+  ]
+}
+
+/// sum s^2, sum s^4 of the complex matrix F(s, i) = f[i*n + s]
+fn sv_sums(f: &[C], n: usize) -> Option<(f64, f64)> {
+  let v = f.to_vec();
+  guarded(move || {
+    // from_row_slice(n, n, v) has entry (r, c) = v[r*n + c] = F(s = c, i = r): the transpose of F, same singular values
+    DMatrix::from_row_slice(n, n, &v).try_svd(false, false, f64::EPSILON, 10_000).map(|svd| {
+      let s2: f64 = svd.singular_values.iter().map(|x| x * x).sum();
+      let s4: f64 = svd.singular_values.iter().map(|x| x.powi(4)).sum();
+      (s2, s4)
+    })
+  })
+  .ok()
+  .flatten()
+}
+
+fn vec3(r: Result<HomTwoSourceResult<Vec<f64>>, String>) -> Value {
+  match r {
+    Ok(v) => json!({"ss": fxs(&v.ss), "ii": fxs(&v.ii), "si": fxs(&v.si)}),
+    Err(p) => json!({ "panic": p }),
+  }
+}
+
+fn axes_for(rng: &mut Rng, spdc: &SPDC, n: usize, mode: usize) -> ((f64, f64, usize), (f64, f64, usize)) {
+  let ws = *(spdc.signal.frequency() / (RAD / S));
+  let wi = *(spdc.idler.frequency() / (RAD / S));
+  let wc = 0.5 * (ws + wi);
+  let d = rng.log_range(2e-4, 4e-3) * wc;
+  match mode {
+    // identical signal and idler axes
+    0 => ((wc - d, wc + d, n), (wc - d, wc + d, n)),
+    // each centred on its own beam, different widths
+    1 => ((ws - d, ws + d, n), (wi - 0.7 * d, wi + 1.2 * d, n)),
+    // the setup's own optimum range
+    2 => {
+      let st = spdc.optimum_range(n).as_steps();
+      ((*(st.0 .0 / (RAD / S)), *(st.0 .1 / (RAD / S)), n), (*(st.1 .0 / (RAD / S)), *(st.1 .1 / (RAD / S)), n))
+    }
+    // off-centre, overlapping but unequal axes
+    _ => {
+      let a = rng.range(-1.0, 1.0) * d;
+      let b = rng.range(-1.0, 1.0) * d;
+      ((ws + a - d, ws + a + d, n), (wi + b - 0.5 * d, wi + b + 1.5 * d, n))
+    }
+  }
+}
+
+fn single_cases(rng: &mut Rng, ncases: usize, max_side: usize) {
+  let list = setups();
+  let integrator = Integrator::default();
+  for case in 0..ncases {
+    let (name, cfg) = &list[case % list.len()];
+    let spdc = match build_setup(cfg) {
+      Ok(s) => s,
+      Err(e) => {
+        emit(json!({"kind": "setup_skip", "setup": name, "why": e}));
+        continue;
+      }
+    };
+    let n = if case < 2 * list.len() { 2 + rng.below(3) } else { 2 + rng.below(max_side - 1) };
+    let mode = (case / list.len()) % 4;
+    let (ls, li) = axes_for(rng, &spdc, n, mode);
+    let range = space(ls, li);
+    let d = 0.5 * (ls.1 - ls.0);
+    let span = rng.log_range(0.2, 3.0) * std::f64::consts::PI / d;
+    let taus: Vec<f64> = vec![0.0, rng.range(-1.0, 1.0) * span, rng.range(-1.0, 1.0) * span];
+    let (s1, t1) = (spdc.clone(), taus.clone());
+    let series = guarded(move || s1.hom_two_source_rate_series(t1.iter().map(|t| *t * S), range, integrator));
+    let s2 = spdc.clone();
+    let vis = guarded(move || s2.hom_two_source_visibilities(range, integrator));
+    let sp = spdc.joint_spectrum(integrator);
+    let arrays = eight(&sp, &sp, ls, li, ls, li);
+    let sv = sv_sums(&arrays[0], n);
+    emit(json!({
+      "kind": "single", "setup": name, "config": cfg, "n": n, "mode": mode,
+      "ls": [fx(ls.0), fx(ls.1)], "li": [fx(li.0), fx(li.1)], "taus": fxs(&taus),
+      "series": vec3(series),
+      "vis": match vis {
+        Ok(v) => json!({"ss": [fx(*(v.ss.0 / S)), fx(v.ss.1)], "ii": [fx(*(v.ii.0 / S)), fx(v.ii.1)], "si": [fx(*(v.si.0 / S)), fx(v.si.1)]}),
+        Err(p) => json!({"panic": p}),
+      },
+      "arrays": arrays.iter().map(|a| cjson(a)).collect::<Vec<_>>(),
+      "sv2": sv.map(|s| fx(s.0)), "sv4": sv.map(|s| fx(s.1)),
+    }));
+  }
+}
+
+/// two different sources on two different ranges: all eight grids differ, every index permutation is visible
+fn pair_setups() -> Vec<(&'static str, Value)> {
+  let mut v: Vec<(&'static str, Value)> = setups().into_iter().filter(|(n, _)| *n == "default" || *n == "ktp_pp_type2").collect();
+  v.push(("ktp_long_narrow", json!({
+    "crystal": {"kind": "KTP", "pm_type": "e->eo", "phi_deg": 0, "theta_deg": 90, "length_um": 6000, "temperature_c": 40},
+    "pump": {"wavelength_nm": 775, "waist_um": 150, "bandwidth_nm": 2.0, "average_power_mw": 10},
+    "signal": {"wavelength_nm": 1550, "phi_deg": 0, "theta_deg": 0, "waist_um": 80, "waist_position_um": "auto"},
+    "idler": "auto", "periodic_poling": {"poling_period_um": "auto"}, "deff_pm_per_volt": 2.0})));
+  v
+}
+
+fn pair_cases(rng: &mut Rng, ncases: usize, max_side: usize) {
+  let list = pair_setups();
+  let integrator = Integrator::default();
+  for case in 0..ncases {
+    let (n1, c1) = &list[case % list.len()];
+    let (n2, c2) = &list[(case + 1 + (case / list.len()) % (list.len() - 1)) % list.len()];
+    let (a, b) = match (build_setup(c1), build_setup(c2)) {
+      (Ok(a), Ok(b)) => (a, b),
+      _ => continue,
+    };
+    // bring the second source to the first one's wavelengths when they differ wildly, so that the cross grids are not all zero
+    let n = 2 + rng.below(max_side.min(6) - 1);
+    let (ls1, li1) = axes_for(rng, &a, n, 3);
+    let (mut ls2, mut li2) = axes_for(rng, &a, n, 3);
+    if case % 2 == 1 {
+      let r = axes_for(rng, &b, n, 3);
+      ls2 = r.0;
+      li2 = r.1;
+    }
+    let (r1, r2) = (space(ls1, li1), space(ls2, li2));
+    let d = 0.5 * (ls1.1 - ls1.0);
+    let span = rng.log_range(0.2, 3.0) * std::f64::consts::PI / d;
+    let taus: Vec<f64> = vec![0.0, rng.range(-1.0, 1.0) * span];
+    let js1 = a.joint_spectrum(integrator);
+    let js2 = b.joint_spectrum(integrator);
+    let (j1, j2, t1) = (js1.clone(), js2.clone(), taus.clone());
+    let series = guarded(move || hom_two_source_rate_series(&j1, &j2, r1, r2, t1.iter().map(|t| *t * S)));
+    let arrays = eight(&js1, &js2, ls1, li1, ls2, li2);
+    emit(json!({
+      "kind": "pair", "setup1": n1, "setup2": n2, "n": n,
+      "ls1": [fx(ls1.0), fx(ls1.1)], "li1": [fx(li1.0), fx(li1.1)], "ls2": [fx(ls2.0), fx(ls2.1)], "li2": [fx(li2.0), fx(li2.1)],
+      "taus": fxs(&taus), "series": vec3(series), "arrays": arrays.iter().map(|a| cjson(a)).collect::<Vec<_>>(),
+    }));
+  }
+}
+
+/// fixed inputs that once violated the property text (run first by the consumer): setup name, side, signal axis, idler axis, delays
+pub fn corpus_cases() {
+  let integrator = Integrator::default();
+  let list = setups();
+  // (setup, n, signal half-width, idler lower / upper offsets from the idler centre) in rad/s, delays in s
+  let cases: Vec<(&str, usize, f64, f64, f64, Vec<f64>)> = vec![("ktp_pp_type2", 4, 3.0e12, -2.0e12, 4.0e12, vec![0.0, -4.5e-13, 1.0e-12])];
+  for (name, n, ds, lo, hi, taus) in cases {
+    let cfg = match list.iter().find(|(k, _)| *k == name) {
+      Some((_, c)) => c.clone(),
+      None => continue,
+    };
+    let spdc = match build_setup(&cfg) {
+      Ok(s) => s,
+      Err(e) => {
+        emit(json!({"kind": "setup_skip", "setup": name, "why": e}));
+        continue;
+      }
+    };
+    let ws = *(spdc.signal.frequency() / (RAD / S));
+    let wi = *(spdc.idler.frequency() / (RAD / S));
+    let (ls, li) = ((ws - ds, ws + ds, n), (wi + lo, wi + hi, n));
+    let range = space(ls, li);
+    let (s1, t1) = (spdc.clone(), taus.clone());
+    let series = guarded(move || s1.hom_two_source_rate_series(t1.iter().map(|t| *t * S), range, integrator));
+    let s2 = spdc.clone();
+    let vis = guarded(move || s2.hom_two_source_visibilities(range, integrator));
+    let sp = spdc.joint_spectrum(integrator);
+    let arrays = eight(&sp, &sp, ls, li, ls, li);
+    let sv = sv_sums(&arrays[0], n);
+    emit(json!({
+      "kind": "single", "corpus": true, "setup": name, "config": cfg, "n": n, "mode": 9,
+      "ls": [fx(ls.0), fx(ls.1)], "li": [fx(li.0), fx(li.1)], "taus": fxs(&taus),
+      "ws": fx(ws), "wi": fx(wi),
+      "series": vec3(series),
+      "vis": match vis {
+        Ok(v) => json!({"ss": [fx(*(v.ss.0 / S)), fx(v.ss.1)], "ii": [fx(*(v.ii.0 / S)), fx(v.ii.1)], "si": [fx(*(v.si.0 / S)), fx(v.si.1)]}),
+        Err(p) => json!({"panic": p}),
+      },
+      "arrays": arrays.iter().map(|a| cjson(a)).collect::<Vec<_>>(),
+      "sv2": sv.map(|s| fx(s.0)), "sv4": sv.map(|s| fx(s.1)),
+    }));
+  }
+}
+
+pub fn run(args: &[String]) {
+  if args.first().map(|s| s.as_str()) == Some("corpus") {
+    corpus_cases();
+    return;
+  }
+  let seed = arg_u64(args, 0, 1);
+  let ncases = arg_u64(args, 1, 24) as usize;
+  let max_side = arg_u64(args, 2, 10) as usize;
+  let npairs = arg_u64(args, 3, 8) as usize;
+  let mut rng = Rng::new(seed);
+  single_cases(&mut rng, ncases, max_side);
+  pair_cases(&mut rng, npairs, max_side);
 }
